@@ -177,7 +177,7 @@ Definition mon_final (tr : list (event * output)) : mstate := fst (mon_run minit
 Definition Minv (m : mstate) : Prop :=
   (cleaner m <> None -> users m = 0) /\
   (0 < users m -> last_clean m = Some true /\ cleaner m = None) /\
-  (unbal m = false -> users m = length (holders m)).
+  (unbal m = false -> users m = List.length (holders m)).
 
 (* clean_at_transitions: the step calls the Cleaner exactly when it is an
    Acquire that finds nobody using the invoker and no cleaner in flight
@@ -202,3 +202,116 @@ Definition balanced (tr : list (event * output)) : Prop := unbal (mon_final tr) 
 
 Definition no_panic_in (tr : list (event * output)) : Prop :=
   forall e o, In (e, o) tr -> o <> OPanic.
+
+(* ========================================================================== *)
+(* Directory creators: the monitor over (operation, observation) traces.
+
+   Observation of one operation on the real stack: its result (name handed
+   out / gRPC code), how many times the instrumented Cleaner ran inside it,
+   and the listing of the root build directory afterwards (names with the
+   entries inside each).  The monitor keeps which handles are open (with
+   the directory name each was given), the counter names handed out so far
+   and the previous listing. *)
+
+Record dmstate := mkDM {
+  dm_open : list (nat * string);
+  dm_issued : list string;
+  dm_listing : listing }.
+
+Definition dminit : dmstate := mkDM [] [] [].
+
+Definition mem (n : string) (l : list string) : bool := existsb (String.eqb n) l.
+
+Definition name_open (op : list (nat * string)) (n : string) : bool :=
+  existsb (fun e => String.eqb (snd e) n) op.
+
+Definition empty_dir_in (n : string) (l : listing) : bool :=
+  existsb (fun e => String.eqb (fst e) n && match snd e with [] => true | _ => false end) l.
+
+Definition subset_names (post pre : listing) : bool :=
+  forallb (fun e => has (fst e) pre) post.
+
+Definition all_open_exist (op : list (nat * string)) (l : listing) : bool :=
+  forallb (fun e => has (snd e) l) op.
+
+Definition is_nil {A} (l : list A) : bool := match l with [] => true | _ => false end.
+
+Definition is_nil_opt {A} (o : option A) : bool := match o with None => true | Some _ => false end.
+
+Definition close_code (users : nat) (f : cfail) : N :=
+  if cf_child f then 10%N
+  else if cf_removeall f then 13%N
+  else if Nat.eqb users 1 && cf_clean f then 15%N else 0%N.
+
+Definition dmon_step (m : dmstate) (o : dop) (ob : dobs) : dmstate * string :=
+  let users := List.length (dm_open m) in
+  let post := ob_listing ob in
+  match o, ob_out ob with
+  | _, DSkip => (m, "")
+  | DGet k dig f, DGot n =>
+    match slot_name (dm_open m) k with
+    | Some _ => (m, "bad-trace")
+    | None =>
+      if Nat.eqb users 0 && gf_clean f then (m, "start-after-failed-clean")
+      else if negb (Nat.eqb (ob_cleans ob) (if Nat.eqb users 0 then 1 else 0))
+      then (m, "clean-count-get")
+      else if name_open (dm_open m) n then (m, "build-dir-shared")
+      else if negb (empty_dir_in n post) then (m, "build-dir-not-empty")
+      else if Nat.eqb users 0 && negb (Nat.eqb (List.length post) 1) then (m, "stale-after-clean")
+      else if is_nil_opt dig && mem n (dm_issued m) then (m, "counter-name-reused")
+      else if negb (all_open_exist (dm_open m) post) then (m, "open-dir-vanished")
+      else (mkDM ((k, n) :: dm_open m)
+                 (if is_nil_opt dig then n :: dm_issued m else dm_issued m) post, "")
+    end
+  | DGet k dig f, DErr code =>
+    match slot_name (dm_open m) k with
+    | Some _ => (m, "bad-trace")
+    | None =>
+      if negb (Nat.eqb (ob_cleans ob)
+                 (if Nat.eqb users 0 then (if gf_clean f then 1 else 2) else 0))
+      then (m, "clean-count-failed-get")
+      else if negb (gf_enter f && gf_remove f) && negb (subset_names post (dm_listing m))
+      then (m, "dir-leaked-on-failed-get")
+      else if Nat.eqb users 0 && negb (gf_clean f) && negb (gf_clean2 f) && negb (is_nil post)
+      then (m, "idle-root-not-empty")
+      else if negb (all_open_exist (dm_open m) post) then (m, "open-dir-vanished")
+      else (mkDM (dm_open m) (dm_issued m) post, "")
+    end
+  | DClose k f, DClosed code =>
+    match slot_name (dm_open m) k with
+    | None => (m, "bad-trace")
+    | Some n =>
+      let op' := drop_slot (dm_open m) k in
+      if negb (N.eqb code (close_code users f)) then (m, "wrong-close-result")
+      else if negb (Nat.eqb (ob_cleans ob) (if Nat.eqb users 1 then 1 else 0))
+      then (m, "clean-count-close")
+      else if negb (cf_removeall f) && has n post then (m, "dir-not-removed")
+      else if Nat.eqb users 1 && negb (cf_clean f) && negb (is_nil post)
+      then (m, "idle-root-not-empty")
+      else if negb (all_open_exist op' post) then (m, "open-dir-vanished")
+      else (mkDM op' (dm_issued m) post, "")
+    end
+  | DWrite k file, DWrote _ =>
+    if negb (all_open_exist (dm_open m) post) then (m, "open-dir-vanished")
+    else (mkDM (dm_open m) (dm_issued m) post, "")
+  | _, _ => (m, "bad-output-dirs")
+  end.
+
+Fixpoint dmon_run (m : dmstate) (tr : list (dop * dobs)) : dmstate * string :=
+  match tr with
+  | [] => (m, "")
+  | (o, ob) :: tl =>
+    let '(m', k) := dmon_step m o ob in
+    if String.eqb k "" then dmon_run m' tl else (m', k)
+  end.
+
+Definition dtrace_ok (tr : list (dop * dobs)) : bool :=
+  String.eqb (snd (dmon_run dminit tr)) "".
+
+(* Counter names handed out along a trace. *)
+Fixpoint counter_names (tr : list (dop * dobs)) : list string :=
+  match tr with
+  | [] => []
+  | (DGet _ None _, mkObs (DGot n) _ _) :: tl => n :: counter_names tl
+  | _ :: tl => counter_names tl
+  end.
